@@ -117,6 +117,8 @@ type boundsSite struct {
 func (c *Ctx) initFactEngine() {
 	feCtx = c
 	paramNonNegCache = map[*ssa.Parameter]int{}
+	entryFactCache = map[*ssa.Function][]Lin{}
+	resultFactCache = map[*ssa.Function][]func(fi *funcInfo, a string, call *ssa.Call) Lin{}
 	prog = c.prog
 	cg = c.callgraph()
 	modSet = map[*ssa.Function]map[string]bool{}
@@ -765,7 +767,7 @@ func (c *Ctx) mapNonNil(v ssa.Value, at ssa.Instruction, seen map[ssa.Value]bool
 			return typeIsNamed(ta.AssertedType, c.typeObj("postscript", "Dict"))
 		}
 		if call, ok := x.Tuple.(*ssa.Call); ok {
-			return c.returnsNonNilMap(call, x.Index)
+			return c.returnsNonNilMap(call, x.Index) || c.returnsNonNilMapUnlessError(call, x.Index, at)
 		}
 	case *ssa.TypeAssert:
 		return typeIsNamed(x.AssertedType, c.typeObj("postscript", "Dict"))
@@ -837,6 +839,52 @@ func (c *Ctx) returnsNonNilMap(call *ssa.Call, idx int) bool {
 		}
 	}
 	return okAll
+}
+
+// returnsNonNilMapUnlessError: the callee follows the (value, error) convention — every return
+// with a nil error returns a made map — and the use at `at` is dominated by the test that the
+// error of this very call is nil.
+func (c *Ctx) returnsNonNilMapUnlessError(call *ssa.Call, idx int, at ssa.Instruction) bool {
+	sc := call.Call.StaticCallee()
+	if sc == nil || sc.Blocks == nil || !c.inModule(sc) || at == nil {
+		return false
+	}
+	res := sc.Signature.Results()
+	ei := res.Len() - 1
+	if ei <= 0 || ei == idx || !isErrorType(res.At(ei).Type()) {
+		return false
+	}
+	n := 0
+	for _, r := range returns(sc) {
+		if len(r.Results) != res.Len() {
+			return false
+		}
+		if !isNilConst(r.Results[ei]) {
+			continue // an error return: the value is not used (checked below)
+		}
+		n++
+		if !c.mapNonNil(r.Results[idx], r, map[ssa.Value]bool{}) {
+			return false
+		}
+	}
+	if n == 0 {
+		return false
+	}
+	var errVal ssa.Value
+	for _, r := range *call.Referrers() {
+		if ex, ok := r.(*ssa.Extract); ok && ex.Index == ei {
+			errVal = ex
+		}
+	}
+	if errVal == nil {
+		return false
+	}
+	for _, cd := range domConds(at.Block()) {
+		if m, ok := asCmp(cd); ok && m.op == token.EQL && (m.x == errVal && isNilConst(m.y) || m.y == errVal && isNilConst(m.x)) {
+			return true
+		}
+	}
+	return false
 }
 
 func (c *Ctx) fieldOnlyMadeMaps(f *types.Var) bool {
@@ -1213,16 +1261,22 @@ func (c *Ctx) recursionGates(fns []*ssa.Function, reach map[*ssa.Function]bool) 
 			}
 		case e.from == bindProc && e.to == bindProc:
 			// nesting depth of procedure objects: literals are limited by the procStart gate, dynamic construction by the budget
-			okGate := false
-			eachInstr(ia.executeOne, func(ins ssa.Instruction) {
-				if st, ok := ins.(*ssa.Store); ok && isFieldAddr(st.Addr, ia.T, c.fld("intp.procStart")) {
-					if _, isCall := st.Val.(*ssa.Call); isCall {
-						if k, ok := upperBoundConst(domConds(st.Block()), func(v ssa.Value) bool { return lenOfField(v, ia.T, c.fld("intp.procStart")) }); ok && k <= 10000 {
-							okGate = true
+			// every place that opens a procedure body (appends to the list of open bodies) is
+			// dominated by a constant bound on the number of open bodies
+			nPush, nBounded := 0, 0
+			for _, g := range c.modFuncs {
+				eachInstr(g, func(ins ssa.Instruction) {
+					if st, ok := ins.(*ssa.Store); ok && isFieldAddr(st.Addr, ia.T, c.fld("intp.procStart")) {
+						if _, isCall := st.Val.(*ssa.Call); isCall {
+							nPush++
+							if k, ok := upperBoundConst(domConds(st.Block()), func(v ssa.Value) bool { return lenOfField(v, ia.T, c.fld("intp.procStart")) }); ok && k <= 10000 {
+								nBounded++
+							}
 						}
 					}
-				}
-			})
+				})
+			}
+			okGate := nPush > 0 && nPush == nBounded
 			if okGate {
 				return "recursion depth = nesting depth of the procedure object; literal nesting is limited by the procStart gate, dynamic nesting by the operation budget", true
 			}
